@@ -199,3 +199,103 @@ Example exact_premises_met :
               ([xterm 1 2 1 [(0%nat, PY); (1%nat, PZ)]; xterm 3 0 0 [(1%nat, PX)]], 1%nat)]
              (Some [[xnum 3 0 1]; [xnum 5 0 2]]) = true.
 Proof. vm_compute. reflexivity. Qed.
+
+(* ---------------------------------------------------------------- the code, translated, is the model *)
+(* On every run tr/tr_estimation.py translates the functions of estimation/_estimation.py, statement by statement,
+   into Gen/EstimationGen.v (the meaning of the Python building blocks: Stats/EstimationTrSupport.v).  The generated
+   definitions take a [pyworld] - operators, circuits, symbol maps, runners, simulators and measurements with the
+   attributes and methods the functions use - and are proved equal (Stats/EstimationGenProofs.v) to the model
+   functions the theorems above are about, in the model's world [model_world]: operators are lists of terms,
+   runner.run_batch_and_measure is BaseCircuitRunner's shot validation followed by an arbitrary function [run],
+   measurements.get_expectation_values is the model's, Circuit.bind is an arbitrary function, expectation_values_to_real
+   an arbitrary function [toreal].  [py_of_task],
+   [py_of_ev], [res_of_model] embed the model's values into the Python values (injectively), indices become ints. *)
+Require Import OQ.Stats.EstimationTrSupport OQ.Gen.EstimationGen OQ.Stats.EstimationGenProofs.
+
+Theorem generated_evaluate_estimation_circuits_is_model :
+  forall (C M : Type) (cbind : C -> M -> C) (run : list (C * Z) -> list meas) (toreal : py_ev Q -> py_ev Q) (Sim : Type)
+         (exact : Sim -> C -> operator -> pyres Q) (ts : list (task C)) (maps : list M),
+  evaluate_estimation_circuits_gen (model_world C M cbind run toreal Sim exact) (map py_of_task ts) maps
+  = Val (map py_of_task (bind_tasks cbind ts maps)).
+Proof. exact evaluate_estimation_circuits_gen_eq. Qed.
+Print Assumptions generated_evaluate_estimation_circuits_is_model.
+
+Theorem generated_split_is_model :
+  forall (C M : Type) (cbind : C -> M -> C) (run : list (C * Z) -> list meas) (toreal : py_ev Q -> py_ev Q) (Sim : Type)
+         (exact : Sim -> C -> operator -> pyres Q) (ts : list (task C)),
+  split_estimation_tasks_to_measure_gen (model_world C M cbind run toreal Sim exact) (map py_of_task ts)
+  = Val (let '(tm, tn, im, inm) := split ts in
+         (map py_of_task tm, map py_of_task tn, map Z.of_nat im, map Z.of_nat inm)).
+Proof. exact split_estimation_tasks_to_measure_gen_eq. Qed.
+Print Assumptions generated_split_is_model.
+
+Theorem generated_evaluate_non_measured_is_model :
+  forall (C M : Type) (cbind : C -> M -> C) (run : list (C * Z) -> list meas) (toreal : py_ev Q -> py_ev Q) (Sim : Type)
+         (exact : Sim -> C -> operator -> pyres Q) (ts : list (task C)),
+  evaluate_non_measured_estimation_tasks_gen (model_world C M cbind run toreal Sim exact) (map py_of_task ts)
+  = res_of_model (map py_of_ev) (evaluate_non_measured ts).
+Proof. exact evaluate_non_measured_estimation_tasks_gen_eq. Qed.
+Print Assumptions generated_evaluate_non_measured_is_model.
+
+(* the whole of estimate_expectation_values_by_averaging: splitting, what is handed to the runner, the expectation
+   values of the returned measurements, and the re-insertion of both kinds of results by index (the item assignments
+   are shown never to raise IndexError) - for every task list and every runner function; expectation_values_to_real
+   is any function that leaves the model's real expectation values unchanged (the model has no complex values) *)
+Theorem generated_estimate_is_model :
+  forall (C M : Type) (cbind : C -> M -> C) (run : list (C * Z) -> list meas) (toreal : py_ev Q -> py_ev Q),
+  (forall e : ev, toreal (py_of_ev e) = py_of_ev e) ->
+  forall (Sim : Type) (exact : Sim -> C -> operator -> pyres Q) (runner : unit) (ts : list (task C)),
+  estimate_expectation_values_by_averaging_gen (model_world C M cbind run toreal Sim exact) runner (map py_of_task ts)
+  = res_of_model (map (option_map py_of_ev)) (estimate run ts).
+Proof. exact estimate_expectation_values_by_averaging_gen_eq. Qed.
+Print Assumptions generated_estimate_is_model.
+
+(* calculate_exact_expectation_values in the world of the exact-value model: any commutative ring with conjugation,
+   the simulator's get_exact_expectation_values is the model's (raising [exn] where the model has None); whatever the
+   function does not use is arbitrary *)
+Theorem generated_calculate_exact_is_model :
+  forall (K : cring) (nzb is_zero : K -> bool) (re : K -> K) (C : Type) (wavefunction : C -> nat * Vec K) (exn : pyexn)
+         (nint : Z -> K) (nlit : Q -> K) (nadd : K -> K -> K) (Term M Meas Runner : Type)
+         (isconst : psum K -> bool) (terms : psum K -> list Term) (coefficient : Term -> K) (cbind : C -> M -> C)
+         (runb : Runner -> list C -> list (option Z) -> pyres (list Meas)) (getev : Meas -> psum K -> pyres (py_ev K))
+         (toreal : py_ev K -> py_ev K) (sim : unit) (shots : xtask K C -> option Z) (ts : list (xtask K C)),
+  calculate_exact_expectation_values_gen
+    (exact_world K nzb is_zero re C wavefunction exn nint nlit nadd Term M Meas Runner isconst terms coefficient cbind
+                 runb getev toreal) sim (map (py_of_xtask K C shots) ts)
+  = match calculate_exact nzb is_zero re wavefunction ts with
+    | Some vs => Val (map (fun v => mk_py_ev v None None) vs)
+    | None => Raise exn
+    end.
+Proof. exact calculate_exact_expectation_values_gen_eq. Qed.
+Print Assumptions generated_calculate_exact_is_model.
+
+(* the embeddings lose nothing *)
+Theorem generated_embeddings_injective :
+  (forall a b : ev, py_of_ev a = py_of_ev b -> a = b) /\
+  (forall (C : Type) (a b : task C), py_of_task a = py_of_task b -> a = b) /\
+  (forall (A B : Type) (f : A -> B), (forall a b, f a = f b -> a = b) ->
+     forall r s : result A, res_of_model f r = res_of_model f s -> r = s).
+Proof. exact (conj py_of_ev_inj (conj (@py_of_task_inj) (@res_of_model_inj))). Qed.
+Print Assumptions generated_embeddings_injective.
+
+(* the generated functions run: the demo list with a runner that returns the requested shots of each circuit's
+   basis state *)
+Definition demo_world : pyworld :=
+  model_world xcircuit unit (fun c _ => c) (basis_runner basis_of) (fun e => e) unit (fun _ _ _ => Raise RuntimeError).
+Example generated_split_runs :
+  match split_estimation_tasks_to_measure_gen demo_world (map py_of_task demo) with
+  | Val (tm, tn, im, inm) => Val (List.length tm, List.length tn, im, inm)
+  | Raise e => Raise e
+  end = Val (2%nat, 3%nat, [1%Z; 4%Z], [0%Z; 2%Z; 3%Z]).
+Proof. vm_compute. reflexivity. Qed.
+Example generated_estimate_runs :
+  match estimate_expectation_values_by_averaging_gen demo_world tt (map py_of_task demo) with
+  | Val l => Val (map (option_map (fun e => map Qred (e_values e))) l)
+  | Raise e => Raise e
+  end = Val [Some [5]; Some [-1 # 2; 3 # 2; 2]; Some [0]; Some [0]; Some [4]]%Q.
+Proof. vm_compute. reflexivity. Qed.
+(* a measured task without a shot count: the runner's validation raises TypeError, through the generated code *)
+Example generated_estimate_raises :
+  estimate_expectation_values_by_averaging_gen demo_world tt [mk_py_task [z 1%Q [0%nat]] (1%nat, []) None]
+  = Raise TypeError.
+Proof. vm_compute. reflexivity. Qed.
